@@ -7,32 +7,83 @@ observes is covered by the theorems about `Reach`.
 -/
 namespace Xp.C06
 
-theorem reach_env_fold {s0 : St} (acts : List EnvAct) (s : St) (t : Option P) (h : Reach s0 ⟨s, t⟩) :
-    Reach s0 ⟨acts.foldl applyEnv s, t⟩ := by
+/-! ### the identity of the claim and the kind of world never change -/
+
+theorem delState_me_peers (s : St) (n : Name) (x x1 : XR) : (delState s n x x1).me = s.me ∧ (delState s n x x1).peers = s.peers := by
+  unfold delState
+  repeat' split
+  all_goals exact ⟨rfl, rfl⟩
+
+theorem exec_me_peers (s : St) (r : Req) : (exec s r).1.me = s.me ∧ (exec s r).1.peers = s.peers := by
+  cases r <;> simp only [exec] <;> repeat' split
+  all_goals first | exact ⟨rfl, rfl⟩ | exact delState_me_peers _ _ _ _
+
+theorem exec_me (s : St) (r : Req) : (exec s r).1.me = s.me := (exec_me_peers s r).1
+
+theorem reach_me_peers {s0 : St} {sys : Sys} (hr : Reach s0 sys) : sys.st.me = s0.me ∧ sys.st.peers = s0.peers := by
+  induction hr with
+  | init => exact ⟨rfl, rfl⟩
+  | step a b _ hstep ih =>
+    cases hstep with
+    | env s s' t he => exact ⟨(env_me_peers he).1.trans ih.1, (env_me_peers he).2.trans ih.2⟩
+    | start s t cfg => exact ih
+    | callOk s r k => exact ⟨(exec_me_peers s r).1.trans ih.1, (exec_me_peers s r).2.trans ih.2⟩
+    | callErr s r k e he => exact ih
+    | callLost s r k e he => exact ⟨(exec_me_peers s r).1.trans ih.1, (exec_me_peers s r).2.trans ih.2⟩
+    | done s a => exact ih
+
+theorem reach_me {s0 : St} {sys : Sys} (hr : Reach s0 sys) : sys.st.me = s0.me := (reach_me_peers hr).1
+
+theorem reach_env_fold {s0 : St} (acts : List EnvAct) (s : St) (t : Option P) (h : Reach s0 ⟨s, t⟩)
+    (ha : ∀ a ∈ acts, a.adm s0.peers s0.me) : Reach s0 ⟨acts.foldl applyEnv s, t⟩ := by
   induction acts generalizing s with
   | nil => exact h
   | cons a as ih =>
     simp only [List.foldl_cons]
-    apply ih
-    rcases applyEnv_env s a with e | e
+    have hmp := reach_me_peers h
+    have hadm : a.adm s.peers s.me := by
+      have := ha a List.mem_cons_self
+      rw [hmp.1, hmp.2]; exact this
+    apply ih _ _ (fun b hb => ha b (List.mem_cons_of_mem _ hb))
+    rcases applyEnv_env s a hadm with e | e
     · rw [e]; exact h
     · exact Reach.step _ _ h (Step.env s _ t e)
 
+theorem admissible_fltErr (f : Flt) (r : Req) : admissible r (fltErr f r) = true := by
+  cases f with
+  | ok => cases r <;> rfl
+  | fail => cases r <;> rfl
+  | conflict => cases r <;> rfl
+  | crashBefore => cases r <;> rfl
+  | crashAfter => cases r <;> rfl
+  | cls e =>
+    simp only [fltErr]
+    split
+    · assumption
+    · cases r <;> rfl
+  | lost e =>
+    simp only [fltErr]
+    split
+    · assumption
+    · cases r <;> rfl
+
 /-- Every final state of a scheduled run of a program that is in flight in a reachable
 system state is itself reachable (the thread being whatever is left of it; a crash is
-modelled by the next `start`). -/
-theorem runRec_reach {s0 : St} (plan : Plan) (env : Nat → List EnvAct) (k : Nat) (p : P) (s : St)
+modelled by the next `start`), for every fault plan — any error class at any call, lost replies,
+crashes — and every admissible script of environment actions. -/
+theorem runRec_reach {s0 : St} (plan : Nat → Flt) (env : Nat → List EnvAct) (henv : ∀ k, ∀ a ∈ env k, a.adm s0.peers s0.me)
+    (k : Nat) (p : P) (s : St)
     (h : Reach s0 ⟨s, some p⟩) : ∃ t, Reach s0 ⟨(runRec plan env k p s).1, t⟩ := by
   induction p generalizing k s with
   | ret a => exact ⟨_, h⟩
   | call r c ih =>
     unfold runRec
     split
-    · exact ih _ _ _ (reach_env_fold _ _ _ (Reach.step _ _ h (Step.callOk s r c)))
-    · exact ih _ _ _ (reach_env_fold _ _ _ (Reach.step _ _ h (Step.callErr s r c .fail)))
-    · exact ih _ _ _ (reach_env_fold _ _ _ (Reach.step _ _ h (Step.callErr s r c .conflict)))
-    · exact ⟨_, reach_env_fold _ _ _ h⟩
-    · exact ⟨_, reach_env_fold _ _ _ (Reach.step _ _ h (Step.callOk s r c))⟩
+    · exact ih _ _ _ (reach_env_fold _ _ _ (Reach.step _ _ h (Step.callOk s r c)) (henv k))
+    · exact ⟨_, reach_env_fold _ _ _ h (henv k)⟩
+    · exact ⟨_, reach_env_fold _ _ _ (Reach.step _ _ h (Step.callOk s r c)) (henv k)⟩
+    · exact ih _ _ _ (reach_env_fold _ _ _ (Reach.step _ _ h (Step.callLost s r c _ (admissible_fltErr _ r))) (henv k))
+    · exact ih _ _ _ (reach_env_fold _ _ _ (Reach.step _ _ h (Step.callErr s r c _ (admissible_fltErr _ r))) (henv k))
 
 /-! ### initial stores -/
 
@@ -50,6 +101,9 @@ structure Init (s0 : St) : Prop where
   idOk : ∀ v ∈ s0.hist, v.id = s0.me
   xcur : ∀ n, s0.xrs n ∈ s0.xhist n
   xfor : ∀ n, foreignAt s0 n → ∀ ox ∈ s0.xhist n, ∃ x, ox = some x ∧ x.foreignTo s0.me
+  /-- resourceVersions of XR states are below the counter and identify the claimRef -/
+  xrvLt : ∀ n x, some x ∈ s0.xhist n → x.rv < s0.nextRv
+  rvU : ∀ n a b, some a ∈ s0.xhist n → some b ∈ s0.xhist n → a.rv = b.rv → a.cref = b.cref
 
 theorem Init.inv {s0 : St} (h : Init s0) : Inv (acked s0) s0 where
   rvLt := h.rvLt
@@ -63,11 +117,13 @@ theorem Init.inv {s0 : St} (h : Init s0) : Inv (acked s0) s0 where
   idOk := h.idOk
   xcur := h.xcur
   xfor := h.xfor
+  xrvLt := h.xrvLt
+  rvU := h.rvU
 
 /-- The usual start: the claim has a single stored version. -/
 theorem Init.single {s0 : St} {c : Claim} (hc : s0.claim = some c) (hh : s0.hist = [c]) (hrv : c.rv < s0.nextRv)
     (ht : s0.trace = []) (hid : c.id = s0.me) (hb : ∀ n, boundAt s0 n → c.refName = some n)
-    (hx : ∀ n, s0.xhist n = [s0.xrs n]) : Init s0 where
+    (hx : ∀ n, s0.xhist n = [s0.xrs n]) (hxrv : ∀ n x, s0.xrs n = some x → x.rv < s0.nextRv) : Init s0 where
   trace := ht
   rvLt := fun v hv => by rw [hh] at hv; simp at hv; subst hv; exact hrv
   hist := by rw [hh]; exact List.pairwise_singleton _ _
@@ -75,8 +131,12 @@ theorem Init.single {s0 : St} {c : Claim} (hc : s0.claim = some c) (hh : s0.hist
   bound := fun n hn => ⟨c, by rw [hh]; simp, hb n hn⟩
   idOk := fun v hv => by rw [hh] at hv; simp at hv; subst hv; exact hid
   xcur := fun n => by rw [hx n]; simp
-  xfor := fun n ⟨x, hxn, hc⟩ ox hox => by
+  xfor := fun n ⟨_, x, hxn, hc⟩ ox hox => by
     rw [hx n] at hox; simp at hox; subst hox; exact ⟨x, hxn, hc⟩
+  xrvLt := fun n x hm => by
+    rw [hx n] at hm; simp at hm; exact hxrv n x hm.symm
+  rvU := fun n a b ha hb _ => by
+    rw [hx n] at ha hb; simp at ha hb; rw [← ha] at hb; cases hb; rfl
 
 theorem refName_of_ref {c : Claim} {r : XRef} (h : c.ref = some r) : c.refName = some r.name := by
   rw [Claim.refName, h]; rfl
@@ -93,32 +153,6 @@ theorem isBound_iff (s : St) (n : Name) : isBound s n = true ↔ boundAt s n := 
   cases h : s.xrs n with
   | none => simp
   | some x => simp
-
-/-! ### the identity of the claim never changes -/
-
-theorem delState_me (s : St) (n : Name) (x x1 : XR) : (delState s n x x1).me = s.me := by
-  unfold delState
-  repeat' split
-  all_goals rfl
-
-theorem exec_me (s : St) (r : Req) : (exec s r).1.me = s.me := by
-  cases r <;> simp only [exec] <;> repeat' split
-  all_goals first | rfl | exact delState_me _ _ _ _
-
-theorem env_me {s s' : St} (h : Env s s') : s'.me = s.me := by
-  cases h <;> rfl
-
-theorem reach_me {s0 : St} {sys : Sys} (hr : Reach s0 sys) : sys.st.me = s0.me := by
-  induction hr with
-  | init => rfl
-  | step a b _ hstep ih =>
-    cases hstep with
-    | env s s' t he => exact (env_me he).trans ih
-    | start s t cfg => exact ih
-    | callOk s r k => exact (exec_me s r).trans ih
-    | callErr s r k o => exact ih
-    | callLost s r k o => exact (exec_me s r).trans ih
-    | done s a => exact ih
 
 /-! ### helper to build example executions -/
 
